@@ -15,7 +15,7 @@ WIDTH = {"Curve": 2, "Surface": 3}
 # ================================================================================== strategy
 @st.composite
 def _input(draw, cls, n_pool):
-    picks = draw(st.lists(st.integers(0, n_pool - 1), unique=True, max_size=3)) if n_pool else []
+    picks = draw(st.lists(st.integers(0, n_pool - 1), unique=True, min_size=draw(st.sampled_from([0, 0, 1])), max_size=3)) if n_pool else []
     data = [{"p": p, "vals": draw(st.lists(S.val, min_size=1, max_size=8))} for p in picks]
     if cls == "DrapeModel":
         return {
@@ -36,7 +36,7 @@ def program_strategy(draw, tier):
     assocs = {"Points": ["VERTEX"], "DrapeModel": ["CELL"]}.get(cls, ["VERTEX", "CELL"])
     labels = draw(st.lists(
         st.tuples(st.sampled_from(["a", "b"]), st.sampled_from([None, None, "T1", "T2"]), st.sampled_from(assocs)),
-        unique=True, min_size=0, max_size=4))
+        unique=True, min_size=draw(st.sampled_from([0, 1, 1, 2, 2])), max_size=4))
     pool = [{"name": name, "tname": tname, "assoc": assoc,
              "kind": draw(st.sampled_from(["float", "float", "float", "int", "int", "bool", "ref"]))}
             for name, tname, assoc in labels]
@@ -202,7 +202,7 @@ class C16(Check):
                             for j, cell in enumerate(snap["cells"]):
                                 mcell = mcells[pos]
                                 ok = all(0 <= v < len(got) for v in mcell) and \
-                                    [got[v] for v in mcell] == [snap["vertices"][v] for v in cell]
+                                    sorted(got[v] for v in mcell) == sorted(snap["vertices"][v] for v in cell)
                                 if not ok:
                                     cond = ("after-trailing-unreferenced-vertices" if any(trailing[:i])
                                             else "offset")
